@@ -142,6 +142,10 @@ def gen_fast_hierarchy_case(rng, tier, idx):
             f = {"name": name, "kind": {"ref": tgt, "arr": arr}, "key": name}
             if not arr and rng.random() < 0.5:
                 f["opt"] = True
+            if rng.random() < 0.4:
+                # the OWNER names keys of the nested class: _serialization_mapper = {"<field>._mapper": {...}}
+                tnames = all_names(srcs, tgt)
+                f["submap"] = {n_: "o_" + n_ for n_ in rng.sample(tnames, rng.randint(1, len(tnames)))}
             fields.append(f)
         rng.shuffle(fields)
         srcs.append(cls(rng.choice(["Order", "Order", "Invoice"]), fields, fast))
@@ -160,6 +164,16 @@ def gen_fast_hierarchy_case(rng, tier, idx):
             op["camel"] = True
         ops.append(op)
     return {"suite": "world", "types": [], "ops": ops, "n": idx}
+
+
+def all_names(srcs, c):
+    """field names of class c of a list of sources, inherited ones included"""
+    out = []
+    while c is not None:
+        out = [f["name"] for f in srcs[c]["fields"]] + out
+        p = srcs[c].get("parent")
+        c = p["c"] if p else None
+    return out
 
 
 SCOPED_PRIMS = sorted(X.PRIM_SRC)
@@ -379,7 +393,10 @@ def gen_case(rng, tier, idx):
         else:
             c = rng.choice(defined)
             kind = rng.choice(USE_OPS)
-            op = {"op": kind, "c": c, "probe": "empty" if rng.random() < 0.15 else "valid"}
+            r_ = rng.random()
+            # "valid1": the SECOND valid value of every field (for AnyOf fields with overlapping options: one that only
+            # a later option accepts), so that what a Field object saw last differs from what it sees first
+            op = {"op": kind, "c": c, "probe": "empty" if r_ < 0.15 else "valid1" if r_ < 0.4 else "valid"}
             if kind in ("serialize", "deserialize") and rng.random() < 0.4:
                 op["camel"] = True       # use-parameter camel_case_convert
             if fastrefs and kind == "createSerializer" and rng.random() < 0.4:
@@ -483,6 +500,37 @@ def directed_cases():
                         [("construct", 2, {"probe": "required"}), ("construct", 0, {}), ("createSerializer", 1, {})]):
                     out.append({"suite": "world", "types": [], "n": -1, "ops": defs + [
                         dict({"op": k, "c": c_, "probe": "valid"}, **extra) for k, c_, extra in hist]})
+    # region: the OWNER's mapper names keys of the nested FastSerializable class ("<field>._mapper"); the owner's
+    # serializer is generated before the nested class was ever used
+    for owner_fast in (True, False):
+        for tgt in (1, 0):
+            for arr in (False, True):
+                ref = fld("account", {"ref": tgt, "arr": arr})
+                ref["submap"] = {"id": "account_id"}
+                own_ = cls("Order", [fld("ref_no", {"prim": 2}), ref], fast=owner_fast)
+                defs = [{"op": "define", "c": 0, "src": base_}, {"op": "define", "c": 1, "src": der_},
+                        {"op": "define", "c": 2, "src": own_}]
+                for hist in ([("createSerializer", 2, {}), ("construct", tgt, {})],
+                             [("serialize", 2, {}), ("serialize", tgt, {})],
+                             [("toSchema", 2, {}), ("deserialize", tgt, {})]):
+                    out.append({"suite": "world", "types": [], "n": -1, "ops": defs + [
+                        dict({"op": k, "c": c_, "probe": "valid"}, **extra) for k, c_, extra in hist]})
+    # region: AnyOf fields whose options overlap and normalise differently, inherited / re-used by a derived
+    # class; the derived class is used with a value only the later option accepts, then the base class is used
+    for tag in (27, 28, 29):
+        b_ = cls("Event", [fld("when", {"prim": tag}), fld("id", {"prim": 0})])
+        for pk in ("inherit", "extend", "partial", "omit", "pick"):
+            par = {"kind": pk, "c": 0}
+            if pk == "omit":
+                par["names"] = ["id"]
+            if pk == "pick":
+                par["names"] = ["when"]
+            d_ = cls("Meeting", [fld("room", {"prim": 2})] if pk == "inherit" else [], parent=par)
+            for hist in ([("construct", 1, "valid1")], [("deserialize", 1, "valid1"), ("serialize", 0, "valid")],
+                         [("construct", 0, "valid1"), ("construct", 1, "valid")]):
+                out.append({"suite": "world", "types": [], "n": -1, "ops": [
+                    {"op": "define", "c": 0, "src": b_}, {"op": "define", "c": 1, "src": d_}] + [
+                    {"op": k, "c": c_, "probe": pr} for k, c_, pr in hist]})
     # region: date/time/ip/host kinds WITH a default in one class and WITHOUT in another (same and sibling
     # kinds share a JSON-schema shape); the defaulted class is schema-mapped first
     for ta, tb in ((18, 18), (18, 20), (20, 18), (19, 21), (21, 19), (19, 19), (23, 23), (24, 24), (20, 20), (21, 21)):
@@ -564,7 +612,8 @@ def oracle_only(case):
         if op["op"] == "define":
             for f in op["src"]["fields"]:
                 k = f["kind"]
-                if f.get("opt") or ("ref" in k and k["ref"] in fastc) or ("refs" in k and set(k["refs"]) & fastc):
+                if f.get("opt") or f.get("submap") or ("ref" in k and k["ref"] in fastc) \
+                        or ("refs" in k and set(k["refs"]) & fastc):
                     return True
         elif op.get("flags") or op.get("probe") == "required":
             return True
